@@ -271,11 +271,19 @@ def check_case(case, seed_key, res, tier):
                     except (evmon.WallNominate, evmon.StepBudget, RecursionError):
                         res.count('skipped_c01_event')
                         continue
+                    except NotImplementedError as e:
+                        res.count('refused_not_implemented')      # explicit refusal (no derivative is produced), e.g. 'derivative not defined for PolyGrad'
+                        res.add('refusals', 'second: ' + str(e)[:80])
+                        continue
                     except Exception as e:
                         if 'caught in a loop' in str(e):
                             continue
                         res.violation('second derivative raised', pack(case, av, name, j), f'{type(e).__name__}: {str(e)[:300]}')
                         return
+                    if not (numpy.isfinite(J1).all() and numpy.isfinite(J2).all()):
+                        # the FIRST derivative is non-finite at a stencil point: no reference for the second (the first-derivative monitor owns that event)
+                        res.count('skipped2/first-derivative-nonfinite-on-stencil')
+                        continue
                     sc2 = max(1., scale, float(numpy.abs(J1).max()) if J1.size else 1.)
                     if J1.size and numpy.abs(J1 - J2).max() > 1e-6 * sc2:
                         res.count('skipped2/fd-noise')
@@ -283,7 +291,8 @@ def check_case(case, seed_key, res, tier):
                     res.count('second_derivatives_compared')
                     verdict, det = tolerance.compare(v2, J2, sc2, rtol_pass=1e-5, rtol_viol=1e-3, check_kind=False)
                     if verdict == tolerance.VIOLATION:
-                        res.violation('second derivative differs from the derivative of the first', pack(case, av, name, j), f'd2(output {j})/d({name})d({name2}): {det}')
+                        res.violation('second derivative differs from the derivative of the first', pack(case, av, name, j), f'd2(output {j})/d({name})d({name2}): {det}',
+                                      mechanism=classify(case, av, v2))
                         return
 
 
@@ -303,7 +312,7 @@ def classify(case, av, v):
         d = case['nodes'][i]
         if d['op'] == 'detinv' and d['p']['f'] == 'det':
             for (i2, env2), m in allvals.items():
-                if i2 == d['args'][0] and m.ndim >= 2 and m.shape[-1] >= 2:
+                if i2 == d['args'][0] and m.ndim >= 2 and m.shape[-1] >= 1:
                     with numpy.errstate(all='ignore'):
                         c = numpy.linalg.cond(m)
                     if not numpy.isfinite(c).all() or numpy.max(c) > 1e8:
